@@ -12,5 +12,10 @@ class ModNode(BaseNode):
             parser.part_comment()
             return ModNode(parser)
             
+    def set_value(self, value=None):
+        if self.value_slice:
+            return  # a sliced injection is cast and cut by the node that is modified (see modify_value)
+        super().set_value(value)
+
     def parse(self, env):
         return None    
